@@ -195,14 +195,15 @@ def create_junction(net, pn_bar, tfluid_k, height_m=0, name=None, index=None, in
 
     index = _get_index_with_check(net, "junction", index)
 
+    if geodata is not None and len(geodata) != 2:
+        raise UserWarning("geodata must be given as (x, y) tuple")
+
     cols = ["name", "pn_bar", "tfluid_k", "height_m", "in_service", "type"]
     vals = [name, pn_bar, tfluid_k, height_m, bool(in_service), type]
 
     _set_entries(net, "junction", index, **dict(zip(cols, vals)), **kwargs)
 
     if geodata is not None:
-        if len(geodata) != 2:
-            raise UserWarning("geodata must be given as (x, y) tuple")
         net["junction_geodata"].loc[index, ["x", "y"]] = geodata
 
     return index
@@ -1268,6 +1269,13 @@ def create_junctions(net, nr_junctions, pn_bar, tfluid_k, height_m=0, name=None,
     add_new_component(net, Junction)
 
     index = _get_multiple_index_with_check(net, "junction", index, nr_junctions)
+    if len(index) != nr_junctions:
+        raise UserWarning("The number of given indices (%d) does not match the number of junctions to create (%d)"
+                          % (len(index), nr_junctions))
+    if geodata is not None:
+        geodata = np.array(geodata)
+        if geodata.shape not in [(2,), (nr_junctions, 2)]:
+            raise ValueError("geodata must be given as (x, y) tuple or as an array of shape (nr_junctions, 2)")
     entries = {"pn_bar": pn_bar, "type": type, "tfluid_k": tfluid_k, "height_m": height_m, "in_service": in_service,
                "name": name}
     _set_multiple_entries(net, "junction", index, **entries, **kwargs)
